@@ -3,6 +3,7 @@ package rules
 import (
 	"go/token"
 	"go/types"
+	"strings"
 
 	"golang.org/x/tools/go/ssa"
 
@@ -60,7 +61,8 @@ func graphStorageWrites(c *an.Ctx, rule string) {
 	protectedStorageWrites(c, rule, protectedStorage{
 		owner: func(a *ssa.FieldAddr) bool {
 			tf := an.TypeField(a)
-			return tf == "ExecutionGraph.from" || tf == "ExecutionGraph.to"
+			roles := resolveEdgeRoles(p)
+			return strings.HasPrefix(tf, "ExecutionGraph.") && roles.isEdgeMapField(strings.TrimPrefix(tf, "ExecutionGraph."))
 		},
 		what:   "graph",
 		whyBad: "the lists are the graph's own adjacency lists: an edge removed, shifted or duplicated there is an edge the dependency gate, the cycle check and the graph commands no longer see as declared",
